@@ -73,6 +73,43 @@ def _local_atoms(e, value, out):
         out.append((e.id, value, {e.id}))
 
 
+def _assign_facts(stmt, facts, flags):
+    """what a plain assignment to a local name tells about later tests: `x = <literal>` fixes the truth value of x (and x == <that
+    literal>); `x = <call-free condition>` is remembered as a flag and, when the facts at hand already decide the condition, also
+    fixes the truth value of x.  Returns (new facts, new flags) (copies when changed)."""
+    if not (isinstance(stmt, ast.Assign) and len(stmt.targets) == 1 and isinstance(stmt.targets[0], ast.Name)):
+        return facts, flags
+    x = stmt.targets[0].id
+    v_ = stmt.value
+    if isinstance(v_, (ast.Compare, ast.BoolOp, ast.UnaryOp)) and \
+            not any(isinstance(y, (ast.Call, ast.Attribute, ast.Subscript, ast.Await)) for y in ast.walk(v_)):
+        nm = frozenset(y.id for y in ast.walk(v_) if isinstance(y, ast.Name))
+        if x not in nm:
+            flags = dict(flags)
+            flags[x] = (v_, nm)
+            for val in (True, False):
+                cs = []
+                _local_atoms(v_, val, cs)
+                if any(a in facts and facts[a][0] != v for a, v, names in cs):
+                    # the condition cannot have this value, so it has the other one
+                    facts = dict(facts)
+                    facts[x] = (not val, frozenset([x]))
+                    break
+    elif isinstance(v_, ast.Constant) and (v_.value is None or isinstance(v_.value, (bool, int, str, bytes))):
+        facts = dict(facts)
+        facts[x] = (bool(v_.value), frozenset([x]))
+        if isinstance(v_.value, (str, bytes)):
+            cs = []
+            _local_atoms(ast.Compare(left=ast.Name(id=x, ctx=ast.Load()), ops=[ast.Eq()], comparators=[v_]), True, cs)
+            for a, v, names in cs:
+                facts[a] = (v, frozenset(names))
+        if v_.value is None:
+            facts['%s is None' % x] = (True, frozenset([x]))
+        else:
+            facts['%s is None' % x] = (False, frozenset([x]))
+    return facts, flags
+
+
 def _feasible(path, assume=()):
     """no two tests on the way contradict each other (same atom, opposite outcome, no assignment to its names in between);
     *assume*: facts (atom text, value, names) that hold at the start of the path"""
@@ -85,6 +122,8 @@ def _feasible(path, assume=()):
             if len(lab) == 1:
                 cs = []
                 _local_atoms(_subst_flags(n.ast, flags) if flags else n.ast, lab[0] == 'true', cs)
+                if flags:
+                    _local_atoms(n.ast, lab[0] == 'true', cs)
                 for a, v, names in cs:
                     if a in facts and facts[a][0] != v:
                         return False
@@ -108,16 +147,10 @@ def _feasible(path, assume=()):
                     del facts[a]
                 for x in [x for x, (e_, names) in flags.items() if x in killed or names & killed]:
                     del flags[x]
-            # a flag variable: `escaped = i != -1` makes a later `if escaped:` a test of `i != -1`
-            if n.kind == 'stmt' and isinstance(n.ast, ast.Assign) and len(n.ast.targets) == 1 and isinstance(n.ast.targets[0], ast.Name):
-                v_ = n.ast.value
-                if isinstance(v_, (ast.Compare, ast.BoolOp, ast.UnaryOp)) and \
-                        not any(isinstance(x, (ast.Call, ast.Attribute, ast.Subscript, ast.Await)) for x in ast.walk(v_)):
-                    nm = set(x.id for x in ast.walk(v_) if isinstance(x, ast.Name))
-                    if n.ast.targets[0].id not in nm:
-                        flags[n.ast.targets[0].id] = (v_, nm)
-                elif isinstance(v_, ast.Constant) and (v_.value is None or isinstance(v_.value, (bool, int))):
-                    facts[n.ast.targets[0].id] = (bool(v_.value), {n.ast.targets[0].id})
+            if n.kind == 'stmt':
+                f2, g2 = _assign_facts(n.ast, facts, flags)
+                facts = dict((k_, (v_[0], set(v_[1]))) for k_, v_ in f2.items())
+                flags = dict((k_, (v_[0], set(v_[1]))) for k_, v_ in g2.items())
     return True
 
 
@@ -138,6 +171,8 @@ class _State(object):
         if n.kind == 'test' and n.ast is not None and lab in ('true', 'false'):
             cs = []
             _local_atoms(_subst_flags(n.ast, flags) if flags else n.ast, lab == 'true', cs)
+            if flags:
+                _local_atoms(n.ast, lab == 'true', cs)          # and what the outcome says about the flag variables themselves
             if cs:
                 facts = dict(facts)
                 for a, v, names in cs:
@@ -160,19 +195,8 @@ class _State(object):
             if killed:
                 facts = dict((a, fv) for a, fv in facts.items() if not (fv[1] & killed))
                 flags = dict((x, ev) for x, ev in flags.items() if x not in killed and not (ev[1] & killed))
-            if n.kind == 'stmt' and isinstance(n.ast, ast.Assign) and len(n.ast.targets) == 1 and isinstance(n.ast.targets[0], ast.Name):
-                v_ = n.ast.value
-                if isinstance(v_, (ast.Compare, ast.BoolOp, ast.UnaryOp)) and \
-                        not any(isinstance(x, (ast.Call, ast.Attribute, ast.Subscript, ast.Await)) for x in ast.walk(v_)):
-                    nm = frozenset(x.id for x in ast.walk(v_) if isinstance(x, ast.Name))
-                    if n.ast.targets[0].id not in nm:
-                        flags = dict(flags)
-                        flags[n.ast.targets[0].id] = (v_, nm)
-                elif isinstance(v_, ast.Constant) and (v_.value is None or isinstance(v_.value, (bool, int))):
-                    # flag = True / False / None / 0 / 1: the truth value of the flag is known from here on
-                    x_ = n.ast.targets[0].id
-                    facts = dict(facts)
-                    facts[x_] = (bool(v_.value), frozenset([x_]))
+            if n.kind == 'stmt':
+                facts, flags = _assign_facts(n.ast, facts, flags)
         st = _State((), facts, flags)
         st.assumed = self.assumed
         return st
